@@ -17,6 +17,9 @@
     lit from_slice <vector>        => <string>;<good>
     lit from_vec <vector>          => <string>;<good>
     lit is_good <string>           => 0/1                 (only reachable strings: constructor results)
+    lit is_unicode <string>        => 0/1                 spec column: no surrogate, <= 0x10FFFF
+    lit to_unicode <string>        => <text>              chars of `to_unicode_string()`
+    lit uni_roundtrip <string>     => <string>;<good>     `SmtString::from(s.to_unicode_string().as_str())`; spec: the input (good Unicode strings)
     lit re_str_ok <string>         => 1                   `ReManager::new().str(&s)` returned (PANIC otherwise)
 -/
 import Driver.Proto
@@ -35,6 +38,9 @@ def pCtor : Option (List Nat) → String
 /-- the specification of the constructors (C17): > 0x2FFFF ↦ 0xFFFD, others unchanged; good -/
 def ctorSpec (a : List Nat) : String :=
   pNats (a.map (fun x => if x ≤ 0x2FFFF then x else 0xFFFD)) ++ ";1"
+
+/-- independent statement of "Unicode scalar value" (not a surrogate, at most 0x10FFFF) -/
+def uniSpec (x : Nat) : Bool := x ≤ 1114111 && !(55296 ≤ x && x ≤ 57343)
 
 def handle (op : String) (args : List String) : Option Reply :=
   match op, args with
@@ -55,6 +61,17 @@ def handle (op : String) (args : List String) : Option Reply :=
   | "from_slice", [a] => do let a ← rNats a; okSpec (pCtor (fromSlice a)) (ctorSpec a)
   | "from_vec", [a] => do let a ← rNats a; okSpec (pCtor (fromVec a)) (ctorSpec a)
   | "is_good", [s] => do let s ← rNats s; ok (pBool (isGood s))
+  | "is_unicode", [s] => do
+      let s ← rNats s
+      okSpec (pBool (isUnicode s)) (pBool (s.all uniSpec))
+  | "to_unicode", [s] => do
+      let s ← rNats s
+      okSpec (pNats (toUnicodeString s)) (pNats (s.map (fun x => if uniSpec x then x else 65533)))
+  | "uni_roundtrip", [s] => do
+      let s ← rNats s
+      let m := pCtor (fromStr (toUnicodeString s))
+      -- Props/C17Uni roundtrip: a good Unicode string comes back unchanged
+      if goodString s && s.all uniSpec then okSpec m (pNats s ++ ";1") else ok m
   | "re_str_ok", [s] => do
       let s ← rNats s
       okProved (if reStrAsserts s then "1" else "PANIC")
